@@ -95,6 +95,9 @@ class ClientEnd:
         if self._fin_pending:
             self._fin_pending = False
             self._arrive_fin()
+        if getattr(self, "_rst_pending_client", False):
+            self._rst_pending_client = False
+            self._arrive_rst()
 
     # -- internals -------------------------------------------------------------
     def _deliver(self, fn: Callable, arg: Optional[bytes], latency: Optional[float]) -> None:
@@ -140,6 +143,11 @@ class ClientEnd:
                 self.on_eof()
 
     def _arrive_rst(self) -> None:
+        if not self.reading and self.pending and not self.closed:
+            # a stalled client notices the reset when it next reads (data already queued is still read:
+            # the model does not discard it)
+            self._rst_pending_client = True
+            return
         if self.rst_at is None and self.eof_at is None:
             self.rst_at = self.sim.now
             self.sim.rec("c.rstrecv", self.conn.id)
@@ -252,6 +260,12 @@ class FakeSocket:
             if self._tx_err is None:
                 self._tx_err = self.conn.fail_send_errno
                 self.sim.fault("net.write_err")
+                # a TCP socket whose send() fails with EPIPE/ECONNRESET is dead in both directions
+                if self.rst_arrived_at is None:
+                    self.rst_arrived_at = self.sim.now
+                self._rx_err = errno.ECONNRESET
+                self._rx.clear()
+                self._wake()
         if self._tx_err is not None:
             err = self._tx_err
             self.sim.rec("s.senderr", self.conn.id, err)
